@@ -55,6 +55,7 @@ type op struct {
 	data   []byte
 	src    *ref.TSPacket
 	srcPkt *packet.Packet // when set: the live packet of the other history is the source
+	alias  int            // opTPD / opExt: 1, 2 = the argument is cut from the slice a getter of this very packet returned
 }
 
 func (o op) String() string {
@@ -97,6 +98,25 @@ func (x *runner) apply(o op) {
 	if err != nil {
 		x.fail("setup:no-adaptation-field", "AdaptationField() failed on a packet with the adaptation field flag: "+err.Error(), nil)
 		return
+	}
+	aliased := false
+	if (o.kind == opTPD || o.kind == opExt) && o.alias != 0 {
+		// the argument is (part of) what a getter of this packet returned: a view into the packet itself.
+		// The value to be stored is what the argument holds when the call is made.
+		var view []byte
+		if o.alias == 1 {
+			view, _ = adaptationfield.TransportPrivateData(&x.p)
+		} else {
+			view, _ = af.AdaptationFieldExtension()
+		}
+		if len(view) >= 2 {
+			a0 := int(o.val % uint64(len(view)))
+			b0 := a0 + int((o.val>>16)%uint64(len(view)-a0+1))
+			o.data = view[a0:b0:b0]
+			aliased = true
+			x.c.Count("argument_aliases_the_packet")
+			x.kinds["aliased-argument"] = true
+		}
 	}
 	next := x.m.Clone()
 	a := &next.AF
@@ -248,6 +268,9 @@ func (x *runner) apply(o op) {
 		wantErr = true
 	}
 	name := opNames[o.kind]
+	if aliased {
+		name += "(argument cut from a getter result of the same packet)"
+	}
 	if wantErr {
 		x.refused++
 		c.Count("refused")
@@ -464,7 +487,14 @@ func randomOp(r *gen.Rand, m *ref.TSPacket) op {
 		if k > 255 {
 			k = 255
 		}
+		if r.Chance(25) {
+			// far more than any field can hold (also lengths that look small once narrowed to 8 bits)
+			k = r.PickInt([]int{256, 257, 256 + r.Intn(40), 300, 511, 512, 512 + r.Intn(20), 1024, 65536 + r.Intn(10)})
+		}
 		o.data = r.Bytes(k)
+		if r.Chance(10) {
+			o.alias, o.val = 1+r.Intn(2), r.Uint64()
+		}
 	case opExt:
 		k := r.Intn(10)
 		switch r.Intn(6) {
@@ -481,7 +511,14 @@ func randomOp(r *gen.Rand, m *ref.TSPacket) op {
 		if k > 255 {
 			k = 255
 		}
+		if r.Chance(25) {
+			// far more than any field can hold (also lengths that look small once narrowed to 8 bits)
+			k = r.PickInt([]int{256, 257, 256 + r.Intn(40), 300, 511, 512, 512 + r.Intn(20), 1024, 65536 + r.Intn(10)})
+		}
 		o.data = r.Bytes(k)
+		if r.Chance(10) {
+			o.alias, o.val = 1+r.Intn(2), r.Uint64()
+		}
 	case opSetAF:
 		L := 1 + r.Intn(183)
 		if r.Chance(3) {
